@@ -53,6 +53,10 @@ func (x *Exec) sliceElem(st *State, s, i Term, el types.Type) Term {
 	row := x.d.Fun(name, []Sort{rowSort, x.idxSort()}, rowSort)
 	r, o, k := Term{"r!r", rowSort}, Term{"o!r", x.idxSort()}, Term{"k!r", x.idxSort()}
 	x.d.Axiom(Forall([]Term{r, o, k}, Eq(Select(row(r, o), k), Select(r, Add(o, k))), []Term{Select(row(r, o), k)}))
+	// read over write through the view: names the view of the row before the
+	// write, so that quantified facts about it (loop invariants) are matched
+	iv, vv := Term{"i!r", x.idxSort()}, Term{"v!r", x.sortOf(el)}
+	x.d.Axiom(Forall([]Term{r, o, k, iv, vv}, Eq(Select(row(Store(r, iv, vv), o), k), Ite(Eq(Add(o, k), iv), vv, Select(row(r, o), k))), []Term{Select(row(Store(r, iv, vv), o), k)}))
 	return Select(row(Select(arr, x.slBase(s)), x.slOff(s)), i)
 }
 
